@@ -82,7 +82,9 @@ func (s *service) trySendRoot(ir *incompleteRoot, acc *wallet.Account) {
 	if ready {
 		err := s.AddStateRoot(sr)
 		if err != nil {
+			// Peers would refuse it just the same.
 			s.log.Error("can't add validated state root", zap.Error(err))
+			return
 		}
 		s.sendValidatedRoot(sr, acc)
 		ir.isSent = true
